@@ -129,9 +129,11 @@ def check(run, ctx):
         if fq not in found:
             run.ok(E3, fq.replace("src.", "", 1), "frozen swallow site no longer present (table can be trimmed)", nontrivial=False)
     orch_sw = []
-    for fn in ("_safe_check_rule", "_extract_violations_from_future"):
-        f = repo.func(f"{ORCH}.Orchestrator.{fn}")
-        orch_sw.append(fn)
+    f = repo.func(f"{ORCH}.Orchestrator._safe_check_rule")
+    orch_sw.append(f.name)
+    f = repo.func_by_role(f"{ORCH}.Orchestrator._extract_violations_from_future", "turns one worker future into violations (future.result() -> Violation.from_dict)",
+                          lambda g: any(is_call_named(n, "result") for n in ast.walk(g.node)) and any(is_call_named(n, "from_dict") for n in ast.walk(g.node)))
+    orch_sw.append(f.name)
     run.ok(E3, "orchestrator swallow sites", f"{orch_sw} + _lint_file_worker (their effect is decided under E1/C05-K6/C07-P4)", nontrivial=False)
 
     E4 = run.rule("E4", "tree walkers reachable from rules that recurse on child nodes have a depth bound or a RecursionError handler", floor=20,
